@@ -67,10 +67,25 @@ Fixpoint lookup (fs : list (loc * str * list str)) (l : loc) (name : str) : opti
 (* ---- validator tags (go-playground rules reached through validatorInstance.Var) ---- *)
 
 Inductive cmp := CGt | CGte | CLt | CLte.
-Inductive rule := RRequired | RCmp (c : cmp) (k : Z) | ROther.
+Inductive rule := RRequired | RCmp (c : cmp) (k : Z) | ROneof (opts : list str) | ROther.
+
+(* the options of `oneof=`: blank-separated words, or '...' groups that may contain blanks
+   (go-playground splits with '[^']*'|\S+ and strips the quotes) *)
+Fixpoint oneof_tokens (p : str) (inq : bool) (cur : str) (have : bool) : list str :=
+  match p with
+  | [] => if have then [rev cur] else []
+  | c :: t =>
+      if beqb c "'"%byte then
+        (if inq then rev cur :: oneof_tokens t false [] false else oneof_tokens t true [] true)
+      else if inq then oneof_tokens t true (c :: cur) true
+      else if beqb c " "%byte then
+        (if have then rev cur :: oneof_tokens t false [] false else oneof_tokens t false [] false)
+      else oneof_tokens t false (c :: cur) true
+  end.
 
 Definition parse_rule (t : str) : rule :=
   if str_eqb t (s "required") then RRequired
+  else if has_prefix (s "oneof=") t then ROneof (oneof_tokens (skipn 6 t) false [] false)
   else
     let try (pre : str) (c : cmp) : option rule :=
       if has_prefix pre t then
@@ -112,6 +127,7 @@ Definition rule_on_value (r : rule) (v : value) : option bool :=
   match r with
   | RRequired => Some true           (* a non-nil pointer always "has a value" (fldIsPointer) *)
   | RCmp c k => match measure v with Some x => Some (cmp_holds c x k) | None => None end
+  | ROneof opts => match v with VStr x => Some (existsb (str_eqb x) opts) | _ => None end
   | ROther => None
   end.
 
@@ -119,6 +135,7 @@ Definition rule_on_list (r : rule) (n : nat) : option bool :=
   match r with
   | RRequired => Some true
   | RCmp c k => Some (cmp_holds c (Z.of_nat n) k)
+  | ROneof _ => None
   | ROther => None
   end.
 
